@@ -24,14 +24,18 @@ MANIFEST = dict(
          "converting (generated convert_*) and reading natively gives; limit selection is exactly the order-preserving filter of the rows inside "
          "the limits; the linear interpolant passes through the knots, lies on the chord between neighbours, is refused outside the range without "
          "a fill value and commutes with positive rescaling of both axes (so querying in foreign units equals converting first); the branch guess "
-         "as a function of index labels is refuted (depends on labels) and proved for range labels. The hand model is tied to the code by a "
+         "depends only on the sequence of pressures (after a fix: commit; formerly refuted). MODEL isotherms: ModelIsotherm.loading_at / pressure_at are "
+         "GENERATED from core/modelisotherm.py on every run (Gen/ModelIsoGen.v); for ANY fitted model functions and every stored / requested "
+         "representation a query = convert the argument with the SI factor, evaluate the model, convert the answer with the SI factors; native "
+         "without arguments; other branch / unit-less arguments refused; round trip through any foreign representation (10 theorems, one defect "
+         "found and repaired in /repo). The hand model is tied to the code by a "
          "per-call correspondence on real isotherms (all stored x requested representations sampled, both branches, limits, fills, CoolProp "
-         "adsorbates). Partial: stored fraction/percent with material arguments is refuted; interpolation kinds other than linear and "
-         "ModelIsotherm accessors are validated by runs only.",
+         "adsorbates). Partial: stored fraction/percent with material arguments is refuted; interpolation kinds other than linear, array arguments and the "
+         "point generators ModelIsotherm.pressure() / loading() are validated by runs only.",
     note="Trusted: Coq kernel; Reals axioms; hand model Iso/IsoAccess.v (validated by correspondence); translators for the converters; "
          "scipy interp1d(kind='linear') = piecewise-linear interpolant over sorted knots (contract, validated by the correspondence); pandas "
          "selection semantics as modelled.",
-    technique="Coq proof on a hand-written accessor model over generated converters + per-call differential correspondence")
+    technique="Coq proof on a hand-written accessor model over generated converters and on the generated ModelIsotherm queries + per-call differential correspondence")
 
 HEADER = """From Coq Require Import QArith ZArith String List.
 From PG Require Import Lib.Num Lib.Py Lib.Show Gen.UnitsGen1 Units.AdsOracle Gen.UnitsGen2 Iso.IsoState Gen.IsoGen Iso.IsoShow Iso.IsoAccess Iso.AccessShow.
